@@ -1,5 +1,84 @@
+import Agd.Model.HashPrefix
+import Agd.Model.Sha256
 import Agd.Driver.Util
-/-! Line-protocol driver for the C11 model (stub: not built yet). -/
+/-! Line-protocol driver for the C11 model.  Byte strings travel hex-encoded (`-` = empty).
+
+* `reset i TEXT`            → `ok n` | `err`          (Storage.Reset on storage i ∈ {0,1,2})
+* `matches i HOST`          → `1` | `0`               (Storage.Matches)
+* `hashes i P1 P2 …`        → hex digests | `-`       (Storage.Hashes, prefixes as 4 hex chars)
+* `prefixes STR`            → `err` | prefixes | `-`  (prefixesFromStr)
+* `ps DOMAIN SUFFIX icann`  → `ok`                    (one entry of the PublicSuffix table)
+* `psclear`                 → `ok`
+* `subs HOST`               → hosts | `-`             (hashableSubdomains)
+* `filterable QT`           → `1` | `0`
+* `filter i HOST QT`        → `none` | `rule HOST`    (Filter.FilterRequest verdict)
+* `matcher SUF0 i0 SUF1 i1` → `ok`                    (NewMatcher)
+* `txt HOST QT`             → `pass` | `refused` | `txt …`  (preservice through MatchByPrefix)
+* `mbp HOST`                → `nomatch` | `err` | `ok …`    (Matcher.MatchByPrefix)
+-/
 namespace Agd.Driver.C11
-def main : IO Unit := Agd.Driver.loop (fun (s : Unit) _ => (s, "bad-op")) ()
+open Agd.HashPrefix Agd.Driver
+
+def hexDigit (n : Nat) : Char := if n < 10 then Char.ofNat (48 + n) else Char.ofNat (87 + n)
+
+def toHex (b : Bytes) : String :=
+  if b.isEmpty then "-" else
+  String.ofList (b.flatMap fun x => [hexDigit (x.toNat / 16), hexDigit (x.toNat % 16)])
+
+def hv (c : Char) : Nat :=
+  let n := c.toNat
+  if n ≤ 57 then n - 48 else if n ≤ 70 then n - 55 else n - 87
+
+def fromHexChars : List Char → Bytes
+  | a :: b :: r => UInt8.ofNat (hv a * 16 + hv b) :: fromHexChars r
+  | _ => []
+
+def fromHex (s : String) : Bytes := if s == "-" then [] else fromHexChars s.toList
+
+def showList (l : List Bytes) : String :=
+  if l.isEmpty then "-" else " ".intercalate (l.map toHex)
+
+structure S where
+  stores : Nat → Store := fun _ => Store.empty
+  cfg : MatcherCfg := []
+  table : List (Bytes × (Bytes × Bool)) := []
+
+def S.ps (s : S) (d : Bytes) : Bytes × Bool :=
+  match s.table.find? (fun e => e.1 == d) with
+  | some e => e.2
+  | none => ([], false)
+
+def H := Agd.Sha256.sum
+
+def parseCfg : List String → MatcherCfg
+  | a :: b :: r => (fromHex a, nat! b) :: parseCfg r
+  | _ => []
+
+def step (s : S) : List String → S × String
+  | ["reset", i, text] =>
+    let r := reset H (s.stores (nat! i)) (fromHex text)
+    ({ s with stores := resetAt H s.stores (nat! i) (fromHex text) },
+      match r.2 with | some n => s!"ok {n}" | none => "err")
+  | ["matches", i, host] => (s, showB («matches» H (s.stores (nat! i)) (fromHex host)))
+  | "hashes" :: i :: prefs => (s, showList (hashes (s.stores (nat! i)) (prefs.map fromHex)))
+  | ["prefixes", str] =>
+    (s, match prefixesFromStr (fromHex str) with | none => "err" | some ps => showList ps)
+  | ["ps", d, suf, icann] => ({ s with table := (fromHex d, (fromHex suf, bool! icann)) :: s.table }, "ok")
+  | ["psclear"] => ({ s with table := [] }, "ok")
+  | ["subs", host] => (s, showList (hashableSubdomains s.ps (fromHex host)))
+  | ["filterable", qt] => (s, showB (isFilterable (nat! qt)))
+  | ["filter", i, host, qt] =>
+    (s, match filterRule H s.ps (s.stores (nat! i)) (fromHex host) (nat! qt) with
+        | none => "none" | some r => "rule " ++ toHex r)
+  | "matcher" :: rest => ({ s with cfg := parseCfg rest }, "ok")
+  | ["txt", host, qt] =>
+    (s, match respond s.stores s.cfg (fromHex host) (nat! qt) with
+        | .pass => "pass" | .refused => "refused" | .txt hs => "txt " ++ showList hs)
+  | ["mbp", host] =>
+    (s, match matchByPrefix s.stores s.cfg (fromHex host) with
+        | .notMatched => "nomatch" | .err => "err" | .ok hs => "ok " ++ showList hs)
+  | _ => (s, "bad-op")
+
+def main : IO Unit := loop step {}
+
 end Agd.Driver.C11
